@@ -239,5 +239,6 @@ def sample_opts(rng, kind, lead, full=True):
     if kind in models.INTEGRATION:
         sw = pick([[1.0, 1.0], [0.5, 2.0], [1.0, 0.0], [0.0, 1.0]])
         o['spatial_weight'], o['spectral_weight'] = sw
-        o['inline_permutation_alignment'] = bool(rng.uniform() < 0.3)
+        # with one stream switched off every permutation has the same criterion value: the choice is a rounding-level tie
+        o['inline_permutation_alignment'] = bool(rng.uniform() < 0.3) and 0.0 not in sw
     return o
